@@ -83,6 +83,9 @@ def bellman_ford(
         if dist[target] == float("inf"):
             return Result(None, float("inf"), iterations, len(edges), Status.INFEASIBLE)
         path = _reconstruct_indexed(parent, target)
+        if path is None:
+            # the parent pointers run in a circle: a cycle whose float sum came out below zero (0.3 + 3 - 3 < 0.3)
+            return Result(None, float("-inf"), iterations, len(edges), Status.UNBOUNDED)
         return Result(path, dist[target], iterations, len(edges))
 
     distances = {i: dist[i] for i in range(n_nodes) if dist[i] < float("inf")}
@@ -92,6 +95,8 @@ def bellman_ford(
 def _reconstruct_indexed(parent, target):
     path = [target]
     while parent[path[-1]] != -1:
+        if len(path) > len(parent):
+            return None
         path.append(parent[path[-1]])
     path.reverse()
     return path
